@@ -137,7 +137,11 @@ def check_trend(ctx, fn):
     okm = len(mm) == 1 and canon(mm[0].value) == canon(parse("get_trend_design_matrix(data, ids, self.prior.poly_trend)"))
     ctx.check(R, mm[0] if mm else fn, "design matrix = get_trend_design_matrix(data, ids, poly_trend)", okm, "M = %s" % (A.unparse(mm[0].value) if mm else None), key="M")
     vp = [s for s in A.walk_local(fn) if isinstance(s, ast.Assign) and canon(s.targets[0]) == "v_pars"]
-    okv = len(vp) == 1 and canon(vp[0].value) == canon(parse("[p['v0']] + [p[name] for name in offset_names] + [p[name] for name in vtrend_names[1:]]"))
+    def parts(e):
+        if isinstance(e, ast.BinOp) and isinstance(e.op, ast.Add):
+            return parts(e.left) + parts(e.right)
+        return [canon(e)]
+    okv = len(vp) == 1 and parts(vp[0].value) == parts(parse("[p['v0']] + [p[name] for name in offset_names] + [p[name] for name in vtrend_names[1:]]"))
     why = "v_pars = %s" % (A.unparse(vp[0].value)[:120] if vp else None)
     ctx.check(R, vp[0] if vp else fn, "parameter vector = [v0] + offsets + v_trend[1:]", okv, why + ": not the column order of the design matrix", key="v_pars")
     flow = A.Flow(fn)
